@@ -118,6 +118,9 @@ func (s *sys) apply(ev string) applied {
 	case "TF":
 		s.eng.step = s.step
 		a.result = s.eng.fireTimer()
+	case "PROP":
+		s.eng.step = s.step
+		a.result = s.eng.lateProposal()
 	case "DR":
 		s.eng.step = s.step
 		a.result = s.eng.finalize()
